@@ -20,8 +20,10 @@ for f in ('ROUND3_FIRST_PASS.md', 'ROUND4_FIRST_PASS.md', 'ROUND5_FIRST_PASS.md'
     for k, c in table(f'{V}/{f}', 3).items():
         first[k] = 'SURVIVED' if 'SURVIVED' in c else 'killed'
 NOT_INDEPENDENT = {'C10_5', 'C10_6'}
-ALSO = {'C03_8': ['C04'], 'C04_9': ['C03'], 'C04_14': ['C03']}
-OUTSIDE = {'C07_9': "C07 states nothing about the soft-max backward (only forward: non-negative, sums to one, shift-invariant, finite); the unchanged Softmax::backward is not a derivative either (it returns the constant (n-2) * sum p^2 in every component) and Dense does not call it. The change is kept for the record; no check is expected to detect it."}
+ALSO = {'C03_8': ['C04'], 'C04_9': ['C03'], 'C04_14': ['C03'], 'C02_15': ['C12'], 'C03_16': ['C04'], 'C04_16': ['C03'], 'C11_15': ['C10'], 'C12_16': ['C06']}
+OUTSIDE = {'C07_15': "ReLU has no derivative at 0; C07 accepts either one-sided value there (manifest assumption 'ReLU-family derivative at +-0 may be either one-sided value'). The change returns 1 instead of 0 at an exact +0.0 in the last length mod 4 positions of a flat vector: both are admissible, and the statement does not require the choice to be the same in every position or rank. Kept for the record; no check is expected to detect it.",
+           'C15_15': "The change re-associates the sum inside the mean ((o1+o2)+(o3+o4) instead of ((o1+o2)+o3)+o4). The statement requires 'the element-wise IEEE single-precision result' of the mean over k tensors, which for k >= 3 is not a single value: every order and bracketing of the additions is an IEEE evaluation of the same mean. C15 pins the division (correctly rounded quotient of some single-precision sum of the operands) and deliberately not the order of additions (appendix F). Kept for the record; no check is expected to detect it.",
+           'C07_9': "C07 states nothing about the soft-max backward (only forward: non-negative, sums to one, shift-invariant, finite); the unchanged Softmax::backward is not a derivative either (it returns the constant (n-2) * sum p^2 in every component) and Dense does not call it. The change is kept for the record; no check is expected to detect it."}
 for d in sorted(os.listdir(V)):
     mp = f'{V}/{d}/meta.json'
     if not os.path.exists(mp):
